@@ -36,8 +36,9 @@ func funcsFields() []string {
 	t := reflect.TypeOf(ociregistry.Funcs{})
 	var fs []string
 	for i := 0; i < t.NumField(); i++ {
-		if n := t.Field(i).Name; n != "NewError" {
-			fs = append(fs, n)
+		// the function fields a user of the table can set (unexported bookkeeping is not the user's)
+		if f := t.Field(i); f.Name != "NewError" && f.IsExported() && f.Type.Kind() == reflect.Func {
+			fs = append(fs, f.Name)
 		}
 	}
 	return fs
@@ -148,6 +149,7 @@ func c20Call(l string, boundary bool) string {
 		}
 	}
 	var rec []c20Rec
+	var ctorCtxs []context.Context // the contexts the error constructor was given, call by call
 	sentinels := map[string][]reflect.Value{}
 	var f *ociregistry.Funcs
 	if !nilRecv {
@@ -170,6 +172,7 @@ func c20Call(l string, boundary bool) string {
 		}
 		if newErr {
 			f.NewError = func(ctx context.Context, methodName, repo string) error {
+				ctorCtxs = append(ctorCtxs, ctx)
 				return fmt.Errorf("custom|%s|%s", methodName, repo)
 			}
 		}
@@ -266,6 +269,24 @@ func c20Call(l string, boundary bool) string {
 	}
 	msg := err.Error()
 	if strings.HasPrefix(msg, "custom|") {
+		// the constructor supplies the error of each call: it is asked with that call's context, and asked
+		// again when the same table refuses again under another context
+		if len(ctorCtxs) == 0 || ctorCtxs[len(ctorCtxs)-1] != ctx {
+			return "unset-constructor-not-given-the-call's-context"
+		}
+		type again struct{}
+		ctx2 := context.WithValue(context.Background(), again{}, 1)
+		args2 := append([]reflect.Value{reflect.ValueOf(ctx2)}, args[1:]...)
+		before := len(ctorCtxs)
+		res2 := m.Call(args2)
+		if last2 := res2[len(res2)-1]; last2.Type().Kind() == reflect.Func {
+			last2.Call([]reflect.Value{reflect.MakeFunc(last2.Type().In(0), func(a []reflect.Value) []reflect.Value {
+				return []reflect.Value{reflect.ValueOf(true)}
+			})})
+		}
+		if len(ctorCtxs) != before+1 || ctorCtxs[before] != ctx2 {
+			return "unset-constructor-not-consulted-for-the-second-call"
+		}
 		p := strings.SplitN(msg, "|", 3)
 		return fmt.Sprintf("unset %s %s 1 %s", p[1], c20RepoPos(p[2], args), shape)
 	}
